@@ -11,6 +11,9 @@ def sha(prefix):
     raise SystemExit("no commit with subject prefix: " + prefix)
 
 FIXED = [
+ ("KF-C17-1", "C17", "C17-duplicate-non-last-package", "fix: file transfer plugin tolerates duplicates",
+  "a duplicate of a data package other than the last one (adjacent or delayed) made the transfer end as 'Incomplete file transfer. Missed package n' although every package arrived in order (30-byte file in 3 packages of 10, package 1 duplicated): the duplicate was counted towards the 'all packages received' rule",
+  "replays/examples/C17-duplicate-non-last-package.json"),
  ("KF-LC-1", "C05", "LC-assert-newer-lifecycle-confirmed-before-older", "fix: don't assert if a lifecycle that was confirmed",
   "lifecycle detection panicked (assert 'buffered_lcs does not contain', lifecycle/mod.rs) when a lifecycle that was already confirmed had to be merged into the still buffered previous lifecycle of the same ECU (5-message trace: ts 0 @200.0 s, ts 37.6 ms @200.06 s, ts 0 @227.8 s, ts 119.4 s @254.3 s, ts 172.1 s @307.0 s); every property that runs the stage (C03, C05-C08, C10, C13-C16, C19) saw the thread die", None),
  ("KF-C07-1", "C07", "C07-phantom-lifecycle", "fix: remove a merged lifecycle from the published lifecycles",
